@@ -342,7 +342,8 @@ pub fn gen_loco(rng: &mut Rng, bel: bool) -> LocoSpec {
     };
     LocoSpec {
         kind,
-        aux_offset: if rng.chance(0.15) { 0.0 } else { r3(rating * rng.range(0.0005, 0.02)) },
+        // (one unit in twelve carries a head-end-power sized hotel load: more than a cold engine can supply on top of traction)
+        aux_offset: if rng.chance(0.15) { 0.0 } else if rng.chance(0.09) { r3(rating * rng.range(0.06, 0.2)) } else { r3(rating * rng.range(0.0005, 0.02)) },
         aux_coeff: if rng.chance(0.2) { 0.0 } else { r3(rng.range(0.0, 0.002)) },
     }
 }
@@ -880,8 +881,11 @@ fn check_unit_tick(
             // top line: fuel = wheel + dyn brake + aux served + losses
             pw(ctx, "fuel=wheel+dynbrake+aux+losses", fc.pwr_fuel.value,
                st.pwr_out.value + ed.pwr_mech_dyn_brake.value + g.pwr_elec_aux.value + fc.pwr_loss.value + g.pwr_loss.value + ed.pwr_loss.value);
-            if !(st.pwr_aux.value >= g.pwr_elec_aux.value * (1.0 - 1e-12) - 1e-9) {
-                ctx.violate("C01", "ledger.step", "loco.pwr_aux>=served_aux", format!("unit {u}: demand {:e} served {:e}", st.pwr_aux.value, g.pwr_elec_aux.value));
+            // aux hand-off: what the locomotive books as auxiliary power is what its generator supplied (a
+            // conventional unit has no mechanism that limits aux; the battery-electric arm below does)
+            pw(ctx, "loco.pwr_aux=gen.elec_aux", st.pwr_aux.value, g.pwr_elec_aux.value);
+            if st.pwr_aux.value > 0.05 * ed_rating {
+                ctx.hit("probe.large_aux_load_on_conventional_unit");
             }
             let es = r.e_fuel.abs().max(pscale);
             eq_e(ctx, "C01", "ledger.cumulative", "fc.energy_fuel", u, fc.energy_fuel.value, r.e_fuel, es);
